@@ -221,13 +221,11 @@ class RecorderRoles(object):
             isinstance(n, ast.Assign) and isinstance(n.targets[0], ast.Subscript) and _self_attr(n.targets[0].value) == self.active
             for n in walk_own(m.node))]
         self.record_data = self._onef('record-data (stores into the active recording)', rds)
-        self.record_output = None
-        for m in c.methods.values():
-            if any(isinstance(n, ast.Call) and isinstance(n.func, ast.Attribute) and n.func.attr == 'append' and
-                   _self_attr(n.func.value) == self.outputs for n in ast.walk(m.node)):
-                self.record_output = m
-        if self.record_output is None:
-            raise AnalysisError('anchor-lost role=record-output')
+        ros = [m for m in c.methods.values() if any(isinstance(n, ast.Call) and isinstance(n.func, ast.Attribute) and n.func.attr == 'append' and
+                                                     _self_attr(n.func.value) == self.outputs for n in ast.walk(m.node))]
+        if len(ros) != 1:
+            raise AnalysisError('anchor-lost role=record-output (candidates: %s)' % [m.qualname for m in ros])
+        self.record_output = ros[0]
         self.sampler = None
         for m in c.methods.values():
             if any(isinstance(n, ast.Call) and isinstance(n.func, ast.Attribute) and n.func.attr == 'random' and
